@@ -57,6 +57,20 @@ def judge(sc, res, h, out):
         want = [O.leaf_byte(x) for x in pre] + [m["commit"] for m in v["nmeta"]]
         h.check(res, O.leaves_are(v["mem_leaves"], want), "tree after append is not the old leaves followed by the new commits",
                 key + "append order")
+        # the appended rows carry the records' own timestamps
+        (arr, ln), (_, pl) = v["post_file"], v["pre_file"]
+        if ln.concrete and pl.concrete and ln.v == pl.v + len(v["nmeta"]) * (ROW_FIXED + 1):
+            off = pl.v
+            conds = []
+            for m in v["nmeta"]:
+                secs = z3.Concat(*[z3.Select(arr, z3.BitVecVal(off + 4 + j, 64)) for j in range(7, -1, -1)])
+                nanos = z3.Concat(*[z3.Select(arr, z3.BitVecVal(off + 12 + j, 64)) for j in range(3, -1, -1)])
+                conds.append(z3.And(secs == m["secs"], nanos == m["nanos"]))
+                off += ROW_FIXED + 1
+            h.check(res, z3.And(*conds) if conds else True, "an appended record is stored with a timestamp other than its own", key + "stored time differs")
+        else:
+            h.check(res, False, "append of %d records grew the file by %s bytes" % (len(v["nmeta"]), (ln.v - pl.v) if (ln.concrete and pl.concrete) else "?"),
+                    key + "appended size")
     elif op[0] == "clear" and v["op_result"].variant == "Ok":
         h.check(res, len(v["mem_leaves"]) == 0, "tree not empty after clear", key + "not empty")
         if "then_apply_result" in v:
@@ -64,9 +78,53 @@ def judge(sc, res, h, out):
                     key + "append after clear unreadable")
 
 
+ROW_FIXED = 4 + 12 + 32 + 32 + 4 + 4      # length, time, last commit, commit, payload length, trailing length
+
+
+def parse_rows(data, header_len):
+    """(secs, nanos, first commit byte) of every row of an event log file (layout decided by the format layer check)"""
+    out = []
+    off = header_len
+    while off + ROW_FIXED <= len(data):
+        rl = int.from_bytes(data[off:off + 4], "little")
+        secs = int.from_bytes(data[off + 4:off + 12], "little", signed=True)
+        nanos = int.from_bytes(data[off + 12:off + 16], "little")
+        out.append((secs, nanos, data[off + 16 + 32]))
+        off += rl + 8
+    return out
+
+
+def expected_records(case):
+    """what the log must hold after the script: apply appends, rewind keeps the prefix ending at the last
+    occurrence of the target, clear empties (refused operations change nothing)"""
+    recs = []
+    for st in case.get("steps", []):
+        if "apply" in st:
+            recs += [(r["secs"], r["nanos"], r["commit"]) for r in st["apply"]]
+        elif "rewind" in st:
+            cs = [c for _, _, c in recs]
+            if st["rewind"] in cs:
+                recs = recs[:len(cs) - cs[::-1].index(st["rewind"])]
+        elif "clear" in st:
+            recs = []
+        else:
+            return None
+    return recs
+
+
 def confirm(case, nat):
     if nat.get("outcome") != "ok":
         return False
     if isinstance(nat.get("reopened"), str):
         return True          # restart failed
-    return nat.get("memory") != nat.get("reopened")
+    if nat.get("memory") != nat.get("reopened"):
+        return True
+    exp = expected_records(case)
+    if exp is None:
+        return False
+    try:
+        data = bytes.fromhex(nat.get("file_after", ""))
+    except ValueError:
+        return False
+    got = parse_rows(data, 6 if case.get("versioned") else 4)
+    return got != exp
